@@ -39,7 +39,7 @@ CHECKS = {
    technique="TLA+ spec (Backend.tla) model-checked with TLC + spec-to-implementation replay in fresh processes + digest trace validation"),
  "C16": dict(cat=MC, design="DESIGN.md §3 C16",
    text="HtFile.tla models the file object (records, export token list, bound disk file with modification stamps, autosave) and all "
-        "public operations incl. external rewrites and failed loads; TLC checks over all histories within the bound that the export parses "
+        "public operations incl. external rewrites, loading another file by explicit path and failed loads; TLC checks over all histories within the bound that the export parses "
         "back to exactly the records, each key once, comments kept in order, untouched records keep their order, failures change nothing; "
         "random 12-step behaviours are replayed on real HtpasswdFile and HtdigestFile objects (utf-8 and latin-1, text/bytes arguments, "
         "autosave on/off) and after every step the exported text and the disk file are parsed by an independent reader and compared with the spec state.",
@@ -82,7 +82,8 @@ CHECKS = {
         "never verifies, disable() is total and idempotent, enable() restores the embedded hash exactly and passes normal hashes through; simulated "
         "histories are replayed on real CryptContext objects for original hashes of 25 real schemes with the disabled scheme listed before and "
         "after them, text and bytes arguments; each produced disabled string is also verified against four passwords (incl. empty and itself) and "
-        "disabled again; verify(.., None) must be False with exactly one dummy verification.",
+        "disabled again; verify(.., None) must be False with exactly one dummy verification - also across reconfigurations by every route "
+        "(load of a mapping, of text, update in place), the remembered dummy hash being a state variable of the model.",
    note="Trusted: TLC, Disabled.tla. Catch-all schemes and schemes whose hashes start with a marker character are excluded (ambiguous by construction). "
         "Dummy verification is observed as a call, not timed.",
    technique="TLA+ spec (Disabled.tla) model-checked with TLC + spec-to-implementation history replay on real contexts"),
@@ -100,7 +101,7 @@ CHECKS = {
         "same six formats and of libpass.context.CryptContext over abstract hashes (format, cost, implicit-cost form, password, producer); TLC "
         "checks interop, identify-own, needs_update and the context laws over all lists of <= 3 formats; simulated 11-step behaviours are replayed on "
         "the real classes with text/bytes/non-ASCII/72-byte passwords, explicit non-empty salts of every legal size and implicit-rounds strings, "
-        "and each libpass-made hash must also be recognised by the classic hasher of its format.",
+        "and each libpass-made hash must also be recognised by the classic hasher of its format; complete bcrypt salts of every cost x hasher cost.",
    note="Trusted: TLC, LibpassCtx.tla. bcrypt passwords <= 72 bytes; Argon2Hasher is not importable on this host (no argon2 backend).",
    technique="TLA+ spec (LibpassCtx.tla) model-checked with TLC + spec-to-implementation behaviour replay across both APIs"),
  "C06": dict(cat=MC, design="DESIGN.md §3 C06",
@@ -118,7 +119,9 @@ CHECKS = {
         "defaults, absent-means-format-default on reading, issuer prefix/parameter reconciliation, refusal rules) for every class-default set; TLC "
         "checks From(To(o)) = o for all objects x class defaults x formats and that every corrupted source is refused; every enumerated case is "
         "executed on real classes made by TOTP.using(**defaults) with hostile label/issuer strings, comparing the six fields and tokens at three "
-        "times; URIs are read back by an independent urllib.parse reader.",
+        "times; URIs are read back by an independent urllib.parse reader. Extension run in the same check: Wallet.tla (AppWallet's table of "
+        "application secrets: six presentations of `secrets`, tag rules, default tag, get_secret; seven properties of the definition proved by "
+        "TLC over all sources of three instances, every source executed on the real class and the whole wallet compared).",
    note="Trusted: TLC, TotpSerial.tla, urllib.parse as independent URI reader. Strings are abstract symbols in the spec (quoting is bound by the "
         "harness). AppWallet encryption is not exercised (no AES support on this host).",
    technique="TLA+ spec (TotpSerial.tla) model-checked with TLC + exhaustive spec-to-implementation replay of the enumerated cases"),
